@@ -381,3 +381,31 @@ func replayPath(evDir, prop string) string {
 	_ = os.MkdirAll(dir, 0o755)
 	return filepath.Join(dir, prop+".violations.json")
 }
+
+// sharedRule runs rule fromID of property fromProp and files those of its obligations whose construct passes keep
+// (nil = all) under asID: the same decision, listed under another property whose statement covers it too. Known
+// findings stay with the rule they are listed under (they are keyed by rule+construct), so obligations that are
+// known findings of the source rule are not copied.
+func sharedRule(P *Program, R *Report, fromProp, fromID, asID string, keep func(construct string) bool) {
+	sub := newReport(R.Prop, R.Tier, P)
+	for _, r := range registry[fromProp] {
+		if r.ID == fromID {
+			r.Run(P, sub)
+		}
+	}
+	for f := range sub.funcsSeen {
+		R.seen(f)
+	}
+	n := 0
+	for _, o := range sub.Obls {
+		if o.Rule != fromID || (keep != nil && !keep(o.Construct)) {
+			continue
+		}
+		o.Rule = asID
+		R.add(o)
+		n++
+	}
+	if n == 0 {
+		R.und(asID, "shared:"+fromID, "the shared rule has obligations", "no obligation of "+fromID+" matched", "")
+	}
+}
